@@ -101,6 +101,15 @@ CHECKS = {
             "and end-of-workflow search results are compared with the model at every step.",
             "Prerequisite relation taken from the handlers / frontend/README.md; upload flags are re-derived from the server on connect.",
             "DESIGN.md §3 C11"),
+    "C12": ("exploration", "harness-as-scheduler over raw websocket connections with the cleanup delay as a gated event; offline predicates M1-M4 over the step-stamped history",
+            "Two connections with scripts of <= 2 requests: every interleaving of their open/request/close events for every "
+            "script pair, under three policies for releasing the server's cleanup delay (immediately, one event later, only "
+            "at the end); three connections: seeded random walks (thorough: every interleaving for <= 1 request each). "
+            "Reader tasks stamp each received message with the logical step; afterwards the history is checked: no reply "
+            "to connection j while an earlier-opened connection is still open, a probe connection is accepted and told a "
+            "state >= every acknowledged transition, its search is answered from the one acknowledged index.",
+            "Whole-message granularity; settle uses a short real sleep (can hide, never invent an overlap); in-process server with a module-local asyncio proxy.",
+            "DESIGN.md §3 C12"),
     "C14": ("exploration", "post-condition monitors + independent recomputation of every ciphertext (PKCS7 + AES-CBC with the observed IV)",
             "The real AES-CBC wrapper (obtained by name, as the schemes do) is driven with all message lengths 0..80 "
             "for each key length and several keys, random lengths to 4096 biased to block boundaries, related keys, "
